@@ -18,7 +18,7 @@ TECHNIQUE = "abstract interpretation of the SpatialIndex / Network method bodies
 
 
 
-def _make_index(ctx, fn, CS, LS, grid):
+def _make_index(ctx, fn, CS, LS, grid, scale=1.0):
     """a CS x LS index of unit cells over [0, CS] x [0, LS]: built by the repository's own constructor (over an empty collection of that
     extent, so that whatever fields the constructor creates exist), then given the cell contents of the case"""
     from .. import absint, orders
@@ -46,7 +46,7 @@ def _make_index(ctx, fn, CS, LS, grid):
         isa = ('TrackCollection',)
 
         def bbox(self):
-            return _Box((0.0, CS, 0.0, LS))
+            return _Box((0.0, CS * scale, 0.0, LS * scale))
 
         def size(self):
             return 0
@@ -56,11 +56,13 @@ def _make_index(ctx, fn, CS, LS, grid):
     explicit = {'grid': grid, 'csize': CS, 'lsize': LS, 'xmin': 0.0, 'ymin': 0.0, 'xmax': float(CS), 'ymax': float(LS),
                 'dX': 1.0, 'dY': 1.0, 'inventaire': set(), 'collection': None, 'verbose': False}
     try:
-        ix = absint.classref(ctx, SI, fn)(_Empty(), (1.0, 1.0), 0.0, False)
+        ix = absint.classref(ctx, SI, fn)(_Empty(), (scale, scale), 0.0, False)
         ok = isinstance(ix, orders.Obj) and ix.fields.get('csize') == CS and ix.fields.get('lsize') == LS
     except Exception:
         ok = False
     if not ok:
+        if scale != 1.0:
+            raise orders.Unsupported('SpatialIndex constructor not interpretable for a %g-sized cell' % scale)
         return absint.instance(ctx, SI, explicit, fn)
     ix.fields.update({'grid': grid, 'collection': None})
     return ix
@@ -772,6 +774,26 @@ def rule_S(ctx):
                                                    dict(shape, tracks=[lname, other[0]], **{'cells without their feature': miss2})))
         except (IndexError, KeyError, TypeError, AttributeError, ZeroDivisionError, orders.Raised) as ex:
             found.setdefault('fails', ('request', 'registration and queries do not fail inside the extent', dict(shape, exception='%s: %s' % (type(ex).__name__, ex))))
+    # sub-millimetre scale (cells of 0.1 mm, positions that are the repository's own ENUCoords, whose equality has a 0.1 mm tolerance):
+    # a track whose fixes are 0.07 mm apart is registered in every cell it crosses, and found again
+    try:
+        ENc = absint.classref(ctx, 'tracklib.core.obs_coords.ENUCoords', fn)
+        sc = 1.0e-4
+        for CS, LS in ((3, 2), (2, 4)):
+            ix = _make_index(ctx, fn, CS, LS, [[[] for _ in range(LS)] for _ in range(CS)], scale=sc)
+            xs_ = [0.5 + 0.7 * k for k in range(int((CS - 0.6) / 0.7) + 1)]
+            coords = [ENc(x_ * sc, 0.5 * sc, 0.0) for x_ in xs_] + [ENc(xs_[-1] * sc, (0.5 + 0.7 * k) * sc, 0.0) for k in range(1, int((LS - 0.6) / 0.7) + 1)]
+            cells = {(int(c_.fields['E'] / sc), int(c_.fields['N'] / sc)) for c_ in coords}
+            n_calls += 1
+            ix.call('addFeature', TrackS(coords), 7)
+            miss = sorted(c_ for c_ in cells if 7 not in ix.fields['grid'][c_[0]][c_[1]])
+            if miss:
+                found.setdefault('register-small', ('addFeature', 'addFeature registers the feature in every cell its segments pass through, also when consecutive fixes are closer than 0.1 mm',
+                                                    {'grid (columns, rows)': [CS, LS], 'cell size': sc, 'vertices': [[c_.fields['E'], c_.fields['N']] for c_ in coords], 'cells without the feature': miss}))
+    except orders.Unsupported as ex:
+        raise shape_error('SpatialIndex.addFeature not interpretable: %s' % ex, f0.loc())
+    except (IndexError, KeyError, TypeError, AttributeError, ZeroDivisionError, orders.Raised) as ex:
+        found.setdefault('fails', ('addFeature', 'registration does not fail inside the extent', {'scale': 'cells of 0.1 mm', 'exception': '%s: %s' % (type(ex).__name__, ex)}))
     for key, (method, desc, wit) in sorted(found.items()):
         ctx.violation('C08.S', _m(ctx, method) if method.startswith('__') else ctx.prog.func(SI + '.' + method), desc, wit, key=key)
     if not found:
